@@ -32,11 +32,12 @@ RULE = ('calls saturation(data, max_voltage, v_per_sec, fs, proportion, mute_win
         'long flag patterns (none, all, isolated, runs of every length, two runs at gaps 1..M+2, runs touching either end) and odd taper widths '
         '1..33 (51, 101 where SciPy may switch to FFT); mode sweep: EVERY channel count 1..400 with k0 / k0+1 (thorough: also k0-1, six proportions) channels over the threshold or over the slew limit; mode edge: broadcasting (nc=1 against a longer max_voltage, wrong lengths), '
         'mute_window_samples 0 / negative, ns = 0, 1, 2, nc = 0, inf/nan samples.  Even widths are outside the property (known finding F9) and are only run in a small '
-        'code-vs-model batch that ties even_width_counterexample to the code.  Flags are compared exactly, the mute gain to 1e-12 with exact '
+        'code-vs-model batch that ties even_width_counterexample to the code.  Every second case is called twice and every sixth three times with the SAME argument objects (each call compared with the model of the original values; an argument that comes back modified is only tagged and followed up with three calls).  Flags are compared exactly, the mute gain to 1e-12 with exact '
         'zeros and ones where SciPy convolves directly.  A case is non-trivial when it has both flagged and unflagged samples or a planted '
         'boundary; distinct by recipe.')
 ASSUMPTIONS = [
     'v_per_sec, fs and proportion are Python scalars (as in every caller): with NumPy >= 2 they adopt the precision of the array they meet',
+    'repeated calls with the SAME argument objects must each follow the rule on the values originally passed (the model is a pure function); whether an argument is modified in place is only recorded as a tag and used to choose follow-up calls',
     'data is a 2-D float32 or float64 array [nc, ns]; integer data (abs/diff overflow) is outside the property',
     'the mute theorems are over the reals; the float64 gain differs by summation rounding (compared to 1e-12; exact 0 and 1 where direct)',
     'even mute_window_samples are excluded from the property (known finding even_mute_window); the theorems carry the hypothesis win[(M-1)/2] >= 1',
@@ -91,22 +92,59 @@ def _classify(e):
     return f'err {type(e).__name__} {s[:60]}'
 
 
-def _call(case):
-    """run the real function; returns ('ok', flags(bool array), mute(float array)) or ('err …',)"""
+def _same_bits(a, b):
+    a, b = np.asarray(a), np.asarray(b)
+    return a.shape == b.shape and a.dtype == b.dtype and a.tobytes() == b.tobytes()
+
+
+def _run(case, calls=None):
+    """Call the real function `calls` times (default case['calls'] or 1) with the SAME argument objects, as a caller that
+    keeps its range array does.  Returns one entry per call: ('ok', flags, mute) or ('err …',).  Whether `data` / `max_voltage`
+    are still bit-identical to what was passed in is RECORDED (last element {'modified': …}; the function gets private copies that
+    are compared with the originals) but is not itself a demand of C16: it is used as a tag and to choose follow-up calls, and a
+    disagreement is reported only through its consequence, a later call whose RESULT differs from the rule on the original values."""
+    calls = int(calls or case.get('calls') or 1)
     kw = {k: case[k] for k in ('v_per_sec', 'fs', 'proportion', 'mute_window_samples') if case.get(k) is not None}
-    with warnings.catch_warnings():
-        warnings.simplefilter('ignore')
-        try:
-            sat, mute = _sat()(case['data'].copy(), case['max_voltage'], **kw)
-        except ValueError as e:
-            return (_classify(e),)
-        except Exception as e:  # any other exception is not part of the modelled behaviour
-            return (f'err {type(e).__name__} {str(e)[:60]}',)
-    sat, mute = np.asarray(sat), np.asarray(mute)
-    ns = case['data'].shape[1]
-    if sat.shape != (ns,) or mute.shape != (ns,) or sat.dtype != np.bool_ or mute.dtype.kind != 'f':
-        return (f'err shape flags{sat.shape}{sat.dtype} mute{mute.shape}{mute.dtype}',)
-    return ('ok', sat, mute.astype(np.float64))
+    data = case['data'].copy()
+    mv0 = case['max_voltage']
+    mv = mv0.copy() if isinstance(mv0, np.ndarray) else list(mv0) if isinstance(mv0, list) else mv0
+    ns = data.shape[1]
+    out = []
+    for _ in range(calls):
+        res = None
+        with warnings.catch_warnings():
+            warnings.simplefilter('ignore')
+            try:
+                sat, mute = _sat()(data, mv, **kw)
+            except ValueError as e:
+                res = (_classify(e),)
+            except Exception as e:  # any other exception is not part of the modelled behaviour
+                res = (f'err {type(e).__name__} {str(e)[:60]}',)
+        if res is None:
+            sat, mute = np.asarray(sat), np.asarray(mute)
+            if sat.shape != (ns,) or mute.shape != (ns,) or sat.dtype != np.bool_ or mute.dtype.kind != 'f':
+                res = (f'err shape flags{sat.shape}{sat.dtype} mute{mute.shape}{mute.dtype}',)
+            else:
+                res = ('ok', sat.copy(), mute.astype(np.float64))
+        if not _same_bits(data, case['data']):
+            res = res + ({'modified': PURITY + ' data argument'},)
+        elif isinstance(mv0, (np.ndarray, list)) and not _same_bits(np.asarray(mv), np.asarray(mv0)):
+            res = res + ({'modified': PURITY + f' max_voltage argument: {np.asarray(mv0).ravel()[:4].tolist()} became '
+                                               f'{np.asarray(mv).ravel()[:4].tolist()}'},)
+        out.append(res)
+    return out
+
+
+PURITY = 'the call modified its'
+
+
+def _modified(res):
+    return res[-1]['modified'] if isinstance(res[-1], dict) else None
+
+
+def _call(case):
+    """one call"""
+    return _run(case, 1)[0]
 
 
 # ---------------------------------------------------------------------------------------------
@@ -563,16 +601,32 @@ def correspondence(ctx):
             lines.append(_line(case, dflt))
             cases.append((mode, i, case, tags))
     answers = ctx.lean(lines)
-    nflag = 0
+    nflag = nmod = 0
     for (mode, i, case, tags), ans in zip(cases, answers):
-        impl = _call(case)
+        # every second case is called twice, every sixth three times, with the SAME argument objects: each call must agree
+        # with the model of the values that were passed in (a pure function of its arguments)
+        calls = 1 + (i % 2 == 0) + (i % 6 == 0)
+        results = _run(case, calls)
+        touched = next((_modified(r) for r in results if _modified(r)), None)
+        if touched and calls < 3:          # informational by itself; follow up with more calls on the same objects
+            calls = 3
+            results = _run(case, calls)
+        if touched:
+            nmod += 1
+            if nmod == 1:
+                ctx.note(f'argument modified in place (tag only; followed up with 3 calls on the same objects): {touched}')
         model = _parse_answer(ans)
         nc, ns = case['data'].shape
         M = case.get('mute_window_samples')
         Mi = dflt['mute_window_samples'] if M is None else M
         direct = _direct(ns, Mi)
+        for j, extra in enumerate(results[:-1]):
+            a, b = _canon(extra, model, direct)
+            ctx.compare('sat', dict(_describe(case, mode, i), call=j + 1, of=calls), a, b, nontrivial=False, tags=('repeated_call',))
+        impl = results[-1]
         a, b = _canon(impl, model, direct)
-        t = list(tags) + [_nc_tag(nc), 'data=' + str(case['data'].dtype), 'range=float' + _mv_array(case['max_voltage'])[1],
+        t = list(tags) + ['calls=%d' % calls] + (['argument_modified_in_place(tag only)'] if touched else [])
+        t = t + [_nc_tag(nc), 'data=' + str(case['data'].dtype), 'range=float' + _mv_array(case['max_voltage'])[1],
                           'M=default' if M is None else 'M=%d' % M if M < 34 else 'M>=34', 'conv=direct' if direct else 'conv=fft',
                           'p=default' if case.get('proportion') is None else 'p=%.3g' % case['proportion']]
         if impl[0] == 'ok':
@@ -583,7 +637,7 @@ def correspondence(ctx):
         else:
             t.append('raises')
             nontrivial = True
-        ctx.compare('sat', _describe(case, mode, i), a, b, nontrivial=nontrivial, tags=tuple(t))
+        ctx.compare('sat', dict(_describe(case, mode, i), call=calls, of=calls), a, b, nontrivial=nontrivial, tags=tuple(t))
     # long flag vectors: Saturation.mute on the flags the real code produced
     lines, keep = [], []
     for i in range(ctx.n(80, 500)):
@@ -616,8 +670,9 @@ def _frac(x):
     return Fraction(float(x))
 
 
-def oracle(case):
-    """None when C16 holds for this call of the real function, else a description of the first violated clause.
+def oracle(case, info=None):
+    """None when C16 holds for case['calls'] (default 1) successive calls of the real function with the same argument objects,
+    else a description of the first violated clause (every call is judged against the values the caller passed in).
     Exact rational arithmetic on the stored values; a comparison closer to its boundary than rounding can resolve is
     'undecided' (either outcome accepted) unless it is an exact tie, which is decided by the text ('exceed', 'more than');
     the slew test accepts either outcome at an exact tie (the code uses >=)."""
@@ -633,10 +688,7 @@ def oracle(case):
     mva, md = _mv_array(case['max_voltage'])
     if nc < 1 or ns < 1 or mva.shape[0] not in (1, nc) or M < 1 or not (0 <= p) or not np.all(np.isfinite(data)):
         return None                                   # outside the property's quantifier
-    res = _call(case)
-    if res[0] != 'ok':
-        return f'the call failed: {res[0]}'
-    sat, mute = res[1], res[2]
+    results = _run(case)
     R = np.broadcast_to(mva.astype(np.float64), (nc,))
     eps = float(np.finfo(np.float32).eps if (data.dtype == np.float32 or md == '32') else np.finfo(np.float64).eps)
     band = 16 * eps
@@ -661,46 +713,58 @@ def oracle(case):
             return None
         return K > P
 
-    for t in range(ns):
-        crit = [(int((over[:, t] == 1).sum()), int((over[:, t] >= 1).sum()), 'over 98 % of range')]
-        if t + 1 < ns:
-            crit.append((int((slew[:, t] == 1).sum()), int((slew[:, t] >= 1).sum()), 'over the slew limit into the next sample'))
-        lo = [more(a) for a, b, _ in crit]
-        hi = [more(b) for a, b, _ in crit]
-        if any(x is True for x in lo) and not sat[t]:
-            j = [x is True for x in lo].index(True)
-            return f'sample {t}: {crit[j][0]} of {nc} channels {crit[j][2]} (> proportion {p}) but the sample is not flagged'
-        if all(x is False for x in hi) and sat[t]:
-            return (f'sample {t} is flagged although only {crit[0][1]} of {nc} channels exceed 98 % of range'
-                    + (f' and {crit[1][1]} the slew limit' if len(crit) > 1 else '') + f' (not more than proportion {p})')
-    if np.any(mute < 0) or np.any(mute > 1 + 1e-12) or not np.all(np.isfinite(mute)):
-        t = int(np.where((mute < 0) | (mute > 1 + 1e-12) | ~np.isfinite(mute))[0][0])
-        return f'mute gain {mute[t]!r} at sample {t} is outside [0, 1]'
-    idx = np.where(sat)[0]
-    if M % 2 == 1 and np.any(mute[idx] > 1e-12):
-        t = int(idx[np.argmax(mute[idx] > 1e-12)])
-        return f'sample {t} is flagged but its mute gain is {mute[t]!r}, not 0'
-    if True:
-        dist = np.full(ns, 10 ** 9)
-        if idx.size:
-            dist = np.min(np.abs(np.arange(ns)[:, None] - idx[None, :]), axis=1)
-        far = dist > M // 2
-        if np.any(np.abs(mute[far] - 1) > 1e-12):
-            t = int(np.where(far & (np.abs(mute - 1) > 1e-12))[0][0])
-            return f'sample {t} is {int(dist[t]) if idx.size else "infinitely"} samples from the nearest flag (half-width {M // 2}) but its mute gain is {mute[t]!r}, not 1'
-    # depends on nothing but the flags: a different recording with the same flags gets the same gain
-    other = {'data': np.where(sat[None, :], 2.0, 0.0).astype(np.float64), 'max_voltage': 1.0, 'v_per_sec': float('inf'),
-             'mute_window_samples': case.get('mute_window_samples')}
-    r2 = _call(other)
-    if r2[0] == 'ok' and np.array_equal(r2[1], sat) and not np.allclose(r2[2], mute, atol=1e-12, rtol=0):
-        t = int(np.argmax(np.abs(r2[2] - mute)))
-        return f'same flags, different gain: {mute[t]!r} at sample {t} here, {r2[2][t]!r} for a one-channel recording with identical flags'
+    def judge(sat, mute):
+        for t in range(ns):
+            crit = [(int((over[:, t] == 1).sum()), int((over[:, t] >= 1).sum()), 'over 98 % of range')]
+            if t + 1 < ns:
+                crit.append((int((slew[:, t] == 1).sum()), int((slew[:, t] >= 1).sum()), 'over the slew limit into the next sample'))
+            lo = [more(a) for a, b, _ in crit]
+            hi = [more(b) for a, b, _ in crit]
+            if any(x is True for x in lo) and not sat[t]:
+                j = [x is True for x in lo].index(True)
+                return f'sample {t}: {crit[j][0]} of {nc} channels {crit[j][2]} (> proportion {p}) but the sample is not flagged'
+            if all(x is False for x in hi) and sat[t]:
+                return (f'sample {t} is flagged although only {crit[0][1]} of {nc} channels exceed 98 % of range'
+                        + (f' and {crit[1][1]} the slew limit' if len(crit) > 1 else '') + f' (not more than proportion {p})')
+        if np.any(mute < 0) or np.any(mute > 1 + 1e-12) or not np.all(np.isfinite(mute)):
+            t = int(np.where((mute < 0) | (mute > 1 + 1e-12) | ~np.isfinite(mute))[0][0])
+            return f'mute gain {mute[t]!r} at sample {t} is outside [0, 1]'
+        idx = np.where(sat)[0]
+        if M % 2 == 1 and np.any(mute[idx] > 1e-12):
+            t = int(idx[np.argmax(mute[idx] > 1e-12)])
+            return f'sample {t} is flagged but its mute gain is {mute[t]!r}, not 0'
+        if True:
+            dist = np.full(ns, 10 ** 9)
+            if idx.size:
+                dist = np.min(np.abs(np.arange(ns)[:, None] - idx[None, :]), axis=1)
+            far = dist > M // 2
+            if np.any(np.abs(mute[far] - 1) > 1e-12):
+                t = int(np.where(far & (np.abs(mute - 1) > 1e-12))[0][0])
+                return f'sample {t} is {int(dist[t]) if idx.size else "infinitely"} samples from the nearest flag (half-width {M // 2}) but its mute gain is {mute[t]!r}, not 1'
+        # depends on nothing but the flags: a different recording with the same flags gets the same gain
+        other = {'data': np.where(sat[None, :], 2.0, 0.0).astype(np.float64), 'max_voltage': 1.0, 'v_per_sec': float('inf'),
+                 'mute_window_samples': case.get('mute_window_samples')}
+        r2 = _call(other)
+        if r2[0] == 'ok' and np.array_equal(r2[1], sat) and not np.allclose(r2[2], mute, atol=1e-12, rtol=0):
+            t = int(np.argmax(np.abs(r2[2] - mute)))
+            return f'same flags, different gain: {mute[t]!r} at sample {t} here, {r2[2][t]!r} for a one-channel recording with identical flags'
+        return None
+
+    for j, res in enumerate(results):
+        nth = '' if len(results) == 1 else f'call {j + 1} of {len(results)} with the same argument objects: '
+        if res[0] != 'ok':
+            return nth + f'the call failed: {res[0]}'
+        r = judge(res[1], res[2])
+        if r:
+            return nth + r
+    if info is not None:                # not a demand of C16 by itself: a hint for choosing follow-up calls
+        info['modified'] = next((_modified(r) for r in results if _modified(r)), None)
     return None
 
 
-def _safe_oracle(case):
+def _safe_oracle(case, info=None):
     try:
-        return oracle(case)
+        return oracle(case, info)
     except Exception as e:  # the oracle itself must not hide a crash of the real code
         return f'raised {type(e).__name__}: {e}'
 
@@ -717,7 +781,7 @@ def _tiny_cases():
                         for t in sorted({0, ns // 2, ns - 1}):
                             for k in sorted({0, max(k0 - 1, 0), k0, min(k0 + 1, nc), nc}):
                                 for rk in ('scalar', 'per'):
-                                    R = 50.0 if rk == 'scalar' else (50.0 * (1 + np.arange(nc) % 3))
+                                    R = 50.0 if rk == 'scalar' else (50.0 * (1 + (np.arange(nc) // 2) % 3))
                                     Rc = np.broadcast_to(np.atleast_1d(R), (nc,))
                                     for what in ('tie', 'in97', 'in98', 'big', 'big2', 'step_big', 'step_neg', 'step_small'):
                                         d = np.zeros((nc, ns), dtype)
@@ -740,9 +804,12 @@ def _tiny_cases():
                                                 continue
                                             kw = {}
                                             d[:k, t + 1:] = {'step_big': 3e-3, 'step_neg': -3e-3, 'step_small': 3e-5}[what]    # limit 1e-8 * 30000 = 3e-4
-                                        out.append({'data': d, 'max_voltage': (50.0 if rk == 'scalar' else R), 'proportion': p,
-                                                    'mute_window_samples': M, **kw})
-    out.sort(key=lambda c: (c['data'].size, c['data'].shape[1]))
+                                        out.append({'data': d, 'max_voltage': (50.0 if rk == 'scalar' else np.array(R, dtype=float)),
+                                                    'proportion': p, 'mute_window_samples': M, 'calls': 1, **kw})
+                                        if rk == 'per' and what in ('in97', 'in98', 'tie') and M is None:
+                                            # the caller keeps its range array and calls again
+                                            out.append(dict(out[-1], calls=2))
+    out.sort(key=lambda c: (c['data'].size, c['data'].shape[1], c['calls']))
     return out
 
 
@@ -756,6 +823,8 @@ def _shrink(case, why):
         nc, ns = d.shape
         mva, _ = _mv_array(best['max_voltage'])
         cands = []
+        if (best.get('calls') or 1) > 1:
+            cands.append(dict(best, calls=(best.get('calls') or 1) - 1))
         for a, b in ((ns // 2, ns), (0, ns - ns // 2), (1, ns), (0, ns - 1)):
             if 0 <= a < b <= ns and b - a < ns:
                 cands.append(dict(best, data=d[:, a:b].copy()))
@@ -791,7 +860,8 @@ def _export(case):
     return {'data': [[float(x) for x in row] for row in d], 'dtype': str(d.dtype),
             'max_voltage': (mv if isinstance(mv, (int, float)) else [float(x) for x in mva]),
             'max_voltage_dtype': ('python scalar' if isinstance(mv, (int, float)) else 'float' + md),
-            **{k: case.get(k) for k in ('v_per_sec', 'fs', 'proportion', 'mute_window_samples')}}
+            **{k: case.get(k) for k in ('v_per_sec', 'fs', 'proportion', 'mute_window_samples')},
+            'calls': int(case.get('calls') or 1)}
 
 
 def _import(inp):
@@ -799,7 +869,7 @@ def _import(inp):
     mv = inp['max_voltage']
     if isinstance(mv, list):
         mv = np.array(mv, dtype=np.float32 if inp.get('max_voltage_dtype') == 'float32' else np.float64)
-    case = {'data': data, 'max_voltage': mv}
+    case = {'data': data, 'max_voltage': mv, 'calls': int(inp.get('calls') or 1)}
     for k in ('v_per_sec', 'fs', 'proportion', 'mute_window_samples'):
         val = inp.get(k)
         if isinstance(val, str):        # json has no inf
@@ -813,19 +883,52 @@ def _report(case, why):
             'expected': 'C16: flagged iff more than `proportion` of the channels exceed 0.98*max_voltage or reach the slew limit into the next '
                         'sample; mute in [0,1], 0 on flagged samples, 1 farther than mute_window_samples//2 from every flag, function of the flags',
             'how': 'python: from ibldsp.voltage import saturation; harness/props/c16.py oracle(_import(input)) '
-                   '(saturation(np.array(data, dtype), max_voltage, **kwargs))'}
+                   '(saturation(np.array(data, dtype), max_voltage, **kwargs), `calls` times with the same argument objects)'}
+
+
+def _follow_up(case):
+    """the call left an argument modified: look for the consequence, a later call on the same objects whose result is wrong"""
+    d = case['data']
+    mva, _ = _mv_array(case['max_voltage'])
+    if mva.shape[0] not in (1, d.shape[0]) or d.size == 0:
+        return None
+    R = np.broadcast_to(mva.astype(np.float64), (d.shape[0],))[:, None]
+    for calls in (2, 3):
+        cands = [dict(case, calls=calls)]
+        for f in (0.975, 0.97, 0.95, 0.985, 0.99):
+            for sgn in (1.0, -1.0):
+                cands.append(dict(case, data=(sgn * f * R * np.ones_like(d, dtype=np.float64)).astype(d.dtype), calls=calls, v_per_sec=1e6))
+        if d.shape[1] >= 2:
+            for a in (2e-4, -2e-4):                      # a step through zero, twice the default slew limit 1e-8 * 30000
+                x = np.zeros_like(d)
+                x[:, 0], x[:, 1:] = -a, a
+                cands.append(dict(case, data=x, calls=calls, v_per_sec=None, fs=None))
+        for c in cands:
+            r = _safe_oracle(c)
+            if r:
+                return c, r
+    return None
 
 
 def search(ctx, reasons):
+    seen = set()
     for case in _tiny_cases():
-        r = _safe_oracle(case)
+        info = {}
+        r = _safe_oracle(case, info)
         if r:
             return _report(*_shrink(case, r))
+        key = (case['data'].shape, str(case['data'].dtype), isinstance(case['max_voltage'], np.ndarray))
+        if info.get('modified') and key not in seen and len(seen) < 24:
+            seen.add(key)
+            f = _follow_up(case)
+            if f:
+                return _report(*_shrink(*f))
     found = None
     for m in ctx.mismatches[:60]:
         c = m['case']
         if c.get('mode') in BUILDERS:
             case, _ = build(ctx, c['mode'], c['i'])
+            case['calls'] = 3
             r = _safe_oracle(case)
             if r:
                 found = (case, r)
@@ -836,6 +939,7 @@ def search(ctx, reasons):
                 continue
             for i in range(min(n, 300)):
                 case, _ = build(ctx, mode, i)
+                case['calls'] = 2
                 r = _safe_oracle(case)
                 if r:
                     found = (case, r)
